@@ -28,6 +28,10 @@ THEOREMS = [
     "PorepyVerif.C41.safeguarding_spec",
     "PorepyVerif.C41.safeguarding_axis0_quirk",
     "PorepyVerif.C41.safeguarding_irrelevant",
+    "PorepyVerif.C41.hypotheses_decidable",
+    "PorepyVerif.C41.standard_exact_decidable",
+    "PorepyVerif.C41.outside_raises",
+    "PorepyVerif.C41.assign_without_indices",
 ]
 LEAN_MODULES = ["PorepyVerif.C41.Props"]
 LEAN_DIRS = ["C46"]
@@ -283,7 +287,16 @@ def gen_case(rng, tier):
             h.append(F(kh, 1 << gi))
             low.append(F(rng.randint(-8, 8), 1 << gi))
             npt.append(rng.choice([2, 2, 3, 3, 4, 5, 6]))
-        zero_low = rng.random() < 0.15
+        strata = []
+        if rng.random() < 0.12:
+            npt = [2] * d  # smallest admissible grid: one cell
+            strata.append("min_grid")
+        if d <= 2 and kind != "general" and rng.random() < 0.10:
+            # extreme scale: a box far from the origin with a fine mesh
+            low = [F(rng.choice([-1, 1]) * rng.randint(200, 1000)) for _ in range(d)]
+            h = [F(rng.choice([1, 3]), 1 << rng.randint(3, 5)) for _ in range(d)]
+            strata.append("extreme_scale")
+        zero_low = "extreme_scale" not in strata and rng.random() < 0.15
         if zero_low:
             low = [F(0)] * d
         while math.prod(npt) > maxpts:
@@ -299,8 +312,19 @@ def gen_case(rng, tier):
                 p, k = _gen_point(rng, d, low, h, npt, allow_danger, outside and j == 0)
                 pts.append(p)
                 kinds.append(k)
+            if rng.random() < 0.10:
+                # all points at grid nodes
+                pts = [[frac(low[i] + rng.randint(0, npt[i] - 1) * h[i]) for i in range(d)] for _ in pts]
+                strata.append("nodes_only")
+            if rng.random() < 0.2 and not (outside and len(pts) == 1):
+                pts.append(list(pts[-1]))  # the same point twice in one batch
+                strata.append("dup_points")
             if rng.random() < 0.5:
                 rng.shuffle(pts)
+            if calls and rng.random() < 0.12:
+                calls.append(dict(rng.choice(calls)))  # a previous call repeated verbatim
+                strata.append("repeat_call")
+                continue
             if rng.random() < 0.45:
                 axis = rng.randrange(d)
                 if rng.random() < 0.04:
@@ -311,6 +335,11 @@ def gen_case(rng, tier):
         case = {"d": d, "low": [frac(v) for v in low], "h": [frac(v) for v in h], "npt": npt, "fns": fns, "calls": calls,
                 "rev": rng.random() < 0.5, "rot": rng.randrange(7),
                 "adaptive": True,
+                # assign_values without the indices argument (indices recovered from the coordinates)
+                "noidx": rng.random() < 0.3,
+                # the call (if any) before which the outside-fed table is NOT given the new values
+                "skip_assign": rng.randrange(len(calls)) if rng.random() < 0.15 else None,
+                "strata": sorted(set(strata)),
                 # construct the adaptive table without base_point (default = origin)
                 "default_base": zero_low and rng.random() < 0.6}
         b = bit_budget(case)
@@ -405,23 +434,36 @@ def _run_asg(case):
     a = _mk_adaptive(case, AT, h, low, None)
     fn = Fn(case)
     out = []
-    for call in case["calls"]:
+    for ci, call in enumerate(case["calls"]):
         x = _arr(call["pts"], d)
         entry = {}
+        try:
+            ca, ia = a.quadrature_points_from_coordinates(x, remove_known_points=False)
+            entry["all"] = {"inds": [[int(v) for v in col] for col in ia.T], "coord": [[frac(v) for v in col] for col in ca.T]}
+        except Exception as e:
+            entry["all"] = err_kind(e)
         try:
             coord, inds = a.quadrature_points_from_coordinates(x)
             entry["quad"] = {"inds": [[int(v) for v in col] for col in inds.T], "coord": [[frac(v) for v in col] for col in coord.T]}
             n = coord.shape[1]
-            if n > 0:
+            if n > 0 and case.get("skip_assign") != ci:
                 p = _perm(n, case)
                 vals = np.array([np.atleast_1d(fn(*coord[:, j])) for j in p]).T.reshape((dim, n))
-                a.assign_values(vals, coord[:, p], inds[:, p])
+                if case.get("noidx"):
+                    a.assign_values(vals, coord[:, p])
+                else:
+                    a.assign_values(vals, coord[:, p], inds[:, p])
         except Exception as e:
             entry["quad"] = err_kind(e)
         try:
             entry["res"] = _res(a.interpolate(x) if call["op"] == "interp" else a.gradient(x, call["axis"]))
         except Exception as e:
             entry["res"] = err_kind(e)
+            if case.get("skip_assign") == ci:
+                # values were withheld: the code refuses with AssertionError, or with numpy's ValueError (ragged
+                # np.ravel of the per-point hit lists, raised just before the assertion) when only SOME base vertices
+                # are missing; the error class is an artefact, only the refusal is compared
+                entry["res"] = {"err": "refused"}
         out.append(entry)
     try:
         out.append(_dump(a))
@@ -430,9 +472,18 @@ def _run_asg(case):
     return out
 
 
+def _precond(case):
+    """the decidable hypotheses of the theorems, evaluated independently of the Lean model"""
+    low, h, npt, high = _geom(case)
+    d = case["d"]
+    return {"wf": all(n >= 2 and l < hi for n, l, hi in zip(npt, low, high)),
+            "inbox": [all(len(p) == d and _in_box(case, p) for p in c["pts"]) for c in case["calls"]],
+            "axisok": [c["op"] == "interp" or 0 <= c["axis"] < d for c in case["calls"]]}
+
+
 def impl_run(case):
     dim = len(case["fns"])
-    res = {"std": _run_std(case, Fn(case))}
+    res = {"pre": _precond(case), "std": _run_std(case, Fn(case))}
     if case.get("adaptive", True):
         res["adp"] = _run_adp(case, Fn(case))[0]
         res["asg"] = _run_asg(case)
@@ -446,7 +497,8 @@ def model_ops(case):
     fns = [{"coefs": [str(c) for c in fn["coefs"]], "extra": fn["extra"]} for fn in case["fns"]]
     ops = [{"op": "table", "low": case["low"], "high": [frac(v) for v in high], "npt": npt, "fns": fns}]
     for call in case["calls"]:
-        ops.append(dict(call))
+        ops.append({k: v for k, v in call.items()})
+    ops.append({"op": "precond", "calls": [{"pts": c["pts"], **({"axis": c["axis"]} if c["op"] == "grad" else {})} for c in case["calls"]]})
     if case.get("adaptive", True):
         # default_base: the origin, which is what the (repaired) constructor uses when base_point is omitted
         ops.append({"op": "atable", "dx": case["h"], "base": case["low"], "dim": dim, "fns": fns})
@@ -454,8 +506,13 @@ def model_ops(case):
             ops.append(dict(call, op="a" + call["op"]))
         ops.append({"op": "adump"})
         ops.append({"op": "atable", "dx": case["h"], "base": case["low"], "dim": dim, "fns": fns})
-        for call in case["calls"]:
-            ops.append({"op": "aquad_assign", "pts": call["pts"], "rev": bool(case.get("rev")), "rot": int(case.get("rot", 0))})
+        for ci, call in enumerate(case["calls"]):
+            ops.append({"op": "aquad_all", "pts": call["pts"]})
+            if case.get("skip_assign") == ci:
+                ops.append({"op": "aquad", "pts": call["pts"]})
+            else:
+                ops.append({"op": "aquad_assign", "pts": call["pts"], "rev": bool(case.get("rev")), "rot": int(case.get("rot", 0)),
+                            "noidx": bool(case.get("noidx"))})
             ops.append(dict(call, op="a" + call["op"] + "_stored"))
         ops.append({"op": "adump"})
     return ops
@@ -463,11 +520,14 @@ def model_ops(case):
 
 def model_decode(outs, case):
     n = len(case["calls"])
-    res = {"std": outs[1:1 + n]}
+    res = {"pre": outs[1 + n], "std": outs[1:1 + n]}
     if case.get("adaptive", True):
-        res["adp"] = outs[2 + n:3 + 2 * n]
-        rest = outs[4 + 2 * n:]
-        res["asg"] = [{"quad": rest[2 * k], "res": rest[2 * k + 1]} for k in range(n)] + [rest[2 * n]]
+        res["adp"] = outs[3 + n:4 + 2 * n]
+        rest = outs[5 + 2 * n:]
+        res["asg"] = [{"all": rest[3 * k], "quad": rest[3 * k + 1], "res": rest[3 * k + 2]} for k in range(n)] + [rest[3 * n]]
+        sk = case.get("skip_assign")
+        if sk is not None and "err" in res["asg"][sk]["res"]:
+            res["asg"][sk]["res"] = {"err": "refused"}
     return res
 
 
@@ -483,7 +543,7 @@ def compare(impl, model, case):
     tolr = 1e-9 if _approx(case) else None
     if "harness_exc" in impl:
         return "impl_run crashed: " + impl["harness_exc"]
-    for part in ("std", "adp", "asg"):
+    for part in ("pre", "std", "adp", "asg"):
         if (part in impl) != (part in model):
             return f"{part}: present in only one of impl/model"
         if part in impl:
@@ -587,6 +647,20 @@ def oracle(case):
         asg = _run_asg(case)
         std_all = _run_std(case, Fn(case))
         for ci, (call, e, sres) in enumerate(zip(case["calls"], asg, std_all)):
+            if case.get("skip_assign") == ci and isinstance(e["quad"], dict) and e["quad"].get("inds"):
+                # values were withheld: if a vertex of a queried hypercube is among them (safeguarding extras do not
+                # count) the table must refuse (assertion), never answer from missing data
+                import itertools
+                lo, hh, _, _ = _geom(case)
+                used = set()
+                for p in call["pts"]:
+                    b = [math.floor((F(p[i]) - lo[i]) / hh[i]) for i in range(d)]
+                    used |= {tuple(bi + ii for bi, ii in zip(b, inc)) for inc in itertools.product(range(2), repeat=d)}
+                if not used & {tuple(i) for i in e["quad"]["inds"]}:
+                    continue
+                if "vals" in e["res"]:
+                    return {"what": f"adaptive table without function answered call {ci} although {len(e['quad']['inds'])} needed vertices were never assigned", "key": "assigned-missing-no-error"}
+                continue
             if not all(_in_box(case, p) for p in call["pts"]) or "vals" not in sres:
                 continue
             if "vals" not in e["res"]:
@@ -662,8 +736,20 @@ def stats(cases, impl_outs):
                 pk["corner" if nb == c["d"] else "boundary-upper" if up else "boundary-lower" if nb else "interior"] += 1
                 if node:
                     pk["grid-node"] += 1
+    st = Counter()
+    for c in cases:
+        for t in c.get("strata", []):
+            st[t] += 1
+        if c.get("noidx"):
+            st["assign_without_indices"] += 1
+        if c.get("skip_assign") is not None:
+            st["assign_withheld"] += 1
+        if c.get("default_base"):
+            st["default_base_point"] += 1
+        if len(c["fns"]) > 1:
+            st["vector_valued"] += 1
     for out in impl_outs:
         if isinstance(out, dict):
             for part in ("std", "adp", "asg"):
                 nerr += sum(1 for o in out.get(part, []) if isinstance(o, dict) and "err" in o)
-    return {"d": dict(dd), "components": dict(dims), "function_kind": dict(kinds), "calls": dict(ops), "point_kinds": dict(pk), "error_answers": nerr}
+    return {"d": dict(dd), "components": dict(dims), "function_kind": dict(kinds), "calls": dict(ops), "point_kinds": dict(pk), "strata": dict(st), "error_answers": nerr}
